@@ -292,10 +292,15 @@ def _histories(ctx, spec, g, path, ct, reqs, pending, case):
     wm = _expected_meas(spec)
     r = ctx.rng('hist', hash((case.get('idx', 0), case.get('gidx', 0), spec['number'], path)) % (1 << 30))
     ks = [n, 1, (n + 1) // 2] + ([k for k in range(1, n + 1)] if n <= 8 else r.sample(range(1, n + 1), 6))
+    other = '3D' if ct == '2D' else '2D'
     orders = {
         'nth-first': [('nth', k) for k in ks] + [('whole',)] + [('nth', n), ('nth', 1)],
         'outside-first': [('nth', 0), ('nth', n + 1), ('nth', n), ('whole',), ('nth', n)],
         'last-only': [('nth', n)],
+        # the other coordinate type first (open finding C18-wrong-coordinate-type), then the group's own
+        'wrong-type-first': [('whole', other), ('whole',), ('nth', 1)],
+        'wrong-type-nth': [('nth', 1, other), ('nth', n), ('whole',)],
+        'wrong-type-last': [('whole',), ('whole', other), ('nth', 1, other), ('whole',)],
     }
     if n > 1:
         orders['shuffled'] = [('nth', k) for k in r.sample(range(1, n + 1), min(n, 5))] + [('whole',)]
@@ -310,28 +315,51 @@ def _histories(ctx, spec, g, path, ct, reqs, pending, case):
             if st0 != 'ok':
                 return
         impl = []
+        wsite = 'history-wrong-type' if oname.startswith('wrong-type') else 'history'
+        real_fail = ctx.fail
+
+        def fail(c, detail, site=None):
+            # failures of the open finding are counted but only a dozen are kept, so that they cannot crowd out others
+            if site and site.startswith('history-wrong-type/'):
+                ctx.hist('known_finding_failures', 'C18-wrong-coordinate-type')
+                ctx._wt = getattr(ctx, '_wt', 0) + 1
+                if ctx._wt > 12:
+                    return
+            real_fail(c, detail, site=site)
         for a in acc:
             c2 = dict(case, what='history', order=oname, access=list(a))
             ctx.case(path=path + '/history', history=oname, nontrivial_key=('hist', oname, spec['gtype'], spec['zclass'], min(n, 6), path))
+            act = a[-1] if a[-1] in ('2D', '3D') else ct
+            if act != ct:
+                # the other coordinate type must be refused (and must not change what later accesses return)
+                st, res = _try(d.get_graphic_data, act) if a[0] == 'whole' else _try(d.get_coordinates, a[1], act)
+                if st == 'ok':
+                    fail(c2, f'access with coordinate type {act} on {ct} data accepted on a parsed group', site=f'{wsite}/{path}')
+                if a[0] == 'whole':
+                    impl.append(['ok', [[_tok(row) for row in np.asarray(x)] for x in res]] if st == 'ok' else ['err', _kind(res)])
+                else:
+                    impl.append(['ok', [_tok(row) for row in np.asarray(res)]] if st == 'ok' else ['err', _kind(res)])
+                continue
             if a[0] == 'whole':
                 st, res = _try(d.get_graphic_data, ct)
                 if st != 'ok' or len(res) != n or any(not _same(x, w) for x, w in zip(res, want)):
-                    ctx.fail(c2, f'whole-group access after {oname} differs from the stored input ({res if st != "ok" else ""})',
-                             site=f'history/{path}')
+                    fail(c2, f'whole-group access after {oname} differs from the stored input ({res if st != "ok" else ""})',
+                             site=f'{wsite}/{path}')
                 impl.append(['ok', [[_tok(row) for row in np.asarray(x)] for x in res]] if st == 'ok' else ['err', _kind(res)])
             else:
                 k = a[1]
                 st, res = _try(d.get_coordinates, k, ct)
                 if 1 <= k <= n:
                     if st != 'ok' or not _same(res, want[k - 1]):
-                        ctx.fail(c2, {'what': f'annotation {k} of {n} read first on a freshly parsed group ({oname})',
+                        fail(c2, {'what': f'annotation {k} of {n} read first on a freshly parsed group ({oname})',
                                       'got': res if st != 'ok' else np.asarray(res).tolist(), 'want': want[k - 1].tolist()},
-                                 site=f'history/{path}')
+                                 site=f'{wsite}/{path}')
                 elif st == 'ok':
-                    ctx.fail(c2, f'annotation number {k} outside 1..{n} accepted on a freshly parsed group', site=f'history/{path}')
+                    fail(c2, f'annotation number {k} outside 1..{n} accepted on a freshly parsed group', site=f'history/{path}')
                 impl.append(['ok', [_tok(row) for row in np.asarray(res)]] if st == 'ok' else ['err', _kind(res)])
         reqs.append(('history', {'gtype': spec['gtype'], 'enc': sv, 'ct': ct,
-                                 'accesses': [['whole'] if a[0] == 'whole' else ['nth', a[1]] for a in acc]}))
+                                 'accesses': [['whole', a[-1] if a[-1] in ('2D', '3D') else ct] if a[0] == 'whole' else
+                                              ['nth', a[1], a[-1] if a[-1] in ('2D', '3D') else ct] for a in acc]}))
         pending.append((dict(case, what='history', order=oname), ('ok', impl)))
     # measurement accessors: by name first, then all; per item get_values first, then the matrix
     if spec['meas']:
@@ -1048,8 +1076,45 @@ def run(ctx):
     _compare(ctx, pending, answers)
 
 
+def _open_findings_fallback():
+    import json
+    import os
+    p = os.path.join(os.path.dirname(os.path.dirname(os.path.dirname(os.path.abspath(__file__)))), 'findings', 'C18.json')
+    try:
+        return [f for f in json.load(open(p)) if f.get('status') == 'open']
+    except Exception:  # noqa: BLE001
+        return []
+
+
+def attribute(failure, open_findings):
+    """failures of the wrong-coordinate-type histories (and only those) belong to the open finding"""
+    ids = {f['id'] for f in open_findings} | {f['id'] for f in _open_findings_fallback()}
+    site = failure.get('site') or ''
+    if site.startswith('history-wrong-type/') and 'C18-wrong-coordinate-type' in ids:
+        return 'C18-wrong-coordinate-type'
+    return None
+
+
+def _witness_wrong_coordinate_type():
+    """three 2-D points, parsed: '3D' first, then '2D'"""
+    import highdicom as hd
+    from highdicom.ann import AnnotationGroup
+    g = AnnotationGroup(number=1, uid=hd.UID(), label='w', annotated_property_category=_code(CODES[0]),
+                        annotated_property_type=_code(CODES[2]), graphic_type='POINT',
+                        graphic_data=[np.array([[1.0, 2.0]], np.float32), np.array([[3.0, 4.0]], np.float32), np.array([[5.0, 6.0]], np.float32)],
+                        algorithm_type='MANUAL')
+    p = AnnotationGroup.from_dataset(g, copy=True)
+    st1, r1 = _try(p.get_graphic_data, '3D')
+    st2, r2 = _try(p.get_graphic_data, '2D')
+    if st1 == 'ok' or st2 != 'ok':
+        return {'3D first': [np.asarray(a).tolist() for a in r1] if st1 == 'ok' else r1, 'then 2D': r2 if st2 != 'ok' else 'ok'}
+    return None
+
+
 def replay(ctx, case):
     sub = type(ctx)(ctx.prop, ctx.tier, ctx.seed, 1, ctx.driver)
+    if case.get('what') == 'wrong-coordinate-type':
+        return _witness_wrong_coordinate_type()
     if case.get('what') == 'object':
         _object(sub, case['idx'], [], [], stream=case.get('stream', 'obj'))
     elif case.get('what') == 'malformed':
